@@ -118,6 +118,20 @@ fn main() {
         txs.push(GbpTransaction { date: d(days[i]), ticker: "A".to_string(), operation: op });
     }
 
+    // coverage predicate: for every day t, cum buys(<=t) >= cum sells(<=t)
+    let kinds0: Vec<char> = shape.chars().collect();
+    let mut cov = Bool::from_bool(true);
+    {
+        let mut ds: Vec<i64> = days.clone(); ds.sort(); ds.dedup();
+        let mut bi = 0; let mut si = 0; let mut allq0 = Vec::new();
+        for k in &kinds0 { if *k=='B' { allq0.push(buys_q[bi]); bi+=1; } else if *k=='S' { allq0.push(sells_q[si]); si+=1; } else { allq0.push(Decimal::ZERO); } }
+        for t in ds {
+            let mut b = Decimal::ZERO; let mut sl = Decimal::ZERO;
+            for i in 0..kinds0.len() { if days[i] <= t { if kinds0[i]=='B' { b = b + allq0[i]; } else if kinds0[i]=='S' { sl = sl + allq0[i]; } } }
+            cov = Bool::and(&[&cov, &sym::term(b).ge(&sym::term(sl))]);
+        }
+    }
+    let txs_rev: Vec<GbpTransaction> = txs.iter().rev().cloned().collect();
     let mut m = Matcher::new();
     let res = m.process(txs);
     let mut line = String::new();
@@ -160,11 +174,33 @@ fn main() {
                 } }
                 c01 = format!("{:?}", ok);
             }
-            line = format!("OK c01={} legs={} rules={:?} c02={:?} c02b={:?} c03={:?}", c01, matches.len(), rules, c02, c02b, c03);
+            let c05 = sym::prove(&cov);
+            let mut m2 = Matcher::new();
+            let c06 = match m2.process(txs_rev) {
+                Err(_) => "rev-rejected".to_string(),
+                Ok((mm2, pools2)) => {
+                    let key = |x: &cgt_core::matcher::MatchResult| (x.disposal_date, format!("{:?}", x.match_detail.rule), x.match_detail.acquisition_date);
+                    let mut a: Vec<_> = matches.iter().collect(); a.sort_by_key(|x| key(x));
+                    let mut b: Vec<_> = mm2.iter().collect(); b.sort_by_key(|x| key(x));
+                    let mut r = String::from("same");
+                    if a.len() != b.len() { r = format!("legcount {} vs {}", a.len(), b.len()); } else {
+                        for (x, y) in a.iter().zip(b.iter()) {
+                            if key(x) != key(y) { r = "legkey".into(); break; }
+                            if sym::prove(&sym::term(x.match_detail.quantity).eq(&sym::term(y.match_detail.quantity))).is_err() { r = "qty".into(); break; }
+                            if sym::prove(&sym::term(x.match_detail.allowable_cost).eq(&sym::term(y.match_detail.allowable_cost))).is_err() { r = "cost".into(); break; }
+                        }
+                        let pc1: Decimal = pools.values().map(|p| p.total_cost).sum(); let pc2: Decimal = pools2.values().map(|p| p.total_cost).sum();
+                        if r == "same" && sym::prove(&sym::term(pc1).eq(&sym::term(pc2))).is_err() { r = "poolcost".into(); }
+                    }
+                    r
+                }
+            };
+            line = format!("OK c05={:?} c06={} c01={} legs={} rules={:?} c02={:?} c02b={:?} c03={:?}", c05.is_ok(), c06, c01, matches.len(), rules, c02, c02b, c03);
         }
         Err(e) => {
             let s = e.to_string();
-            line = format!("ERR {}", &s[..s.len().min(60)]);
+            let c05 = sym::prove(&cov.not());
+            line = format!("ERR c05neg={:?} {}", c05.is_ok(), &s[..s.len().min(60)]);
         }
     }
     let (checks, forks) = sym::stats();
